@@ -201,6 +201,23 @@ func lockstep(idx int64, m mk, ops []op) (changes int) {
 				viol("get-after-reset-nonzero", i, rt.J{"get": g})
 			}
 		case "update":
+			if m.min && !dirty {
+				// the minimum's Update hands f(current) to Add: with a positive result it is one more sample
+				before := inst.Get()
+				fv := updateFn(o.V)(before)
+				inst.Update(updateFn(o.V))
+				if fv > 0 && !math.IsInf(fv, 0) && !math.IsNaN(fv) {
+					sinceReset = append(sinceReset, fv)
+					lo, hi = math.Min(lo, fv), math.Max(hi, fv)
+					rt.Count("minimum_updates_modelled_as_a_sample", 1)
+					if after := inst.Get(); after != lo {
+						viol("not-minimum-since-reset/after-update", i, rt.J{"get": after, "want": lo, "update_result": fv, "before": before})
+					}
+					continue
+				}
+				dirty = true
+				continue
+			}
 			inst.Update(updateFn(o.V))
 			dirty = true
 		case "get":
